@@ -276,7 +276,8 @@ CLAIMS = {
              "and iteration (begin/rbegin positions, exact stepping of ++/-- to the neighbouring index resp. the end marker, "
              "dereference at the index) are proved against exact post-conditions. The four ( const char*, pos, count) "
              "character-set overloads, whose membership test is an inner loop, are decided with the same proof applied "
-             "to the inner loop. Not decided: sprintf's text, std::string-iterator overloads.",
+             "to the inner loop. sprintf(): length == min( L, result of vsnprintf) (0 on error) and byte i is byte i of the "
+             "formatter's output. Not decided: the one overload taking std::string iterators.",
         note="trusted base: clang front end, extractor, cv/lin.py + cv/bounds.py + cv/boolshape.py, the std::string "
              "specification table in cv/props/c11.py; sources do not alias the destination",
         also=("engine B (boolshape.py)",),
